@@ -51,7 +51,8 @@ func (cr *cursor) ruleLB30(breakOp *breakOpportunity) {
 		*breakOp = breakProhibited
 	}
 	// [CP-[\p{ea=F}\p{ea=W}\p{ea=H}]] × (AL | HL | NU)
-	if cr.prevLine == ucd.BreakCP && !unicode.Is(ucd.LargeEastAsian, cr.prev) &&
+	// (the width is the one of the parenthesis, not of the marks following it)
+	if cr.prevLine == ucd.BreakCP && !unicode.Is(ucd.LargeEastAsian, cr.prevLineRune) &&
 		(cr.line == ucd.BreakAL || cr.line == ucd.BreakHL || cr.line == ucd.BreakNU) {
 		*breakOp = breakProhibited
 	}
@@ -69,7 +70,7 @@ func (cr *cursor) ruleLB30ab(breakOp *breakOpportunity) {
 		*breakOp = breakProhibited
 	}
 	// [\p{Extended_Pictographic}&\p{Cn}] × EM
-	if unicode.Is(ucd.Extended_Pictographic, cr.prev) && ucd.LookupType(cr.prev) == nil &&
+	if unicode.Is(ucd.Extended_Pictographic, cr.prevLineRune) && ucd.LookupType(cr.prevLineRune) == nil &&
 		cr.line == ucd.BreakEM {
 		*breakOp = breakProhibited
 	}
@@ -432,11 +433,13 @@ func (cr *cursor) endIteration(isStart bool) {
 			cr.prevLine == ucd.BreakZW
 		if isStart || isLB10 { // Rule LB10
 			cr.prevLine = ucd.BreakAL
+			cr.prevLineRune = cr.r
 		} // else rule LB9 : ignore the rune for prevLine and prevPrevLine
 
 	} else { // regular update
 		cr.prevPrevLine = cr.prevLine
 		cr.prevLine = cr.line
+		cr.prevLineRune = cr.r
 	}
 
 	// keep track of the rune before the spaces
